@@ -67,9 +67,9 @@ theorem cxAt_builtin (k : Nat) (f : String)
   rcases hf with rfl | rfl | rfl | rfl | rfl | rfl <;>
     rcases hg' with rfl | rfl | rfl | rfl | rfl | rfl | rfl | rfl <;> simp
 
-theorem cxAt_handleInvalid_5 : (cxAt parseInt 5).funs "_handleInvalid" = some (run (cxAt parseInt 4) _handleInvalid_ast) := rfl
-theorem cxAt_handleInvalid_6 : (cxAt parseInt 6).funs "_handleInvalid" = some (run (cxAt parseInt 4) _handleInvalid_ast) := rfl
-theorem cxAt_handleInvalid_7 : (cxAt parseInt 7).funs "_handleInvalid" = some (run (cxAt parseInt 4) _handleInvalid_ast) := rfl
+theorem cxAt_handleInvalid_5 : (cxAt parseInt 5).funs "_handleInvalid" = some (runKw (cxAt parseInt 4) _handleInvalid_ast) := rfl
+theorem cxAt_handleInvalid_6 : (cxAt parseInt 6).funs "_handleInvalid" = some (runKw (cxAt parseInt 4) _handleInvalid_ast) := rfl
+theorem cxAt_handleInvalid_7 : (cxAt parseInt 7).funs "_handleInvalid" = some (runKw (cxAt parseInt 4) _handleInvalid_ast) := rfl
 
 /-! ### `_handleInvalid`, for every argument -/
 
@@ -79,8 +79,8 @@ def handleInvalidV : Val → Except PyErr Val
   | .excType n => .error (excOf n)
   | v => .ok v
 
-theorem handleInvalid_run (x : Val) : run (cxAt parseInt 4) _handleInvalid_ast [x] = handleInvalidV x := by
-  cases x <;> simp [_handleInvalid_ast, run, bindArgs, execL, execS, execH, eval, evalList, cxAt_builtin, builtin, getAttr,
+theorem handleInvalid_run (x : Val) : runKw (cxAt parseInt 4) _handleInvalid_ast [x] [] = handleInvalidV x := by
+  cases x <;> simp [_handleInvalid_ast, runKw, bindArgs, execL, execS, execH, eval, evalList, cxAt_builtin, builtin, getAttr,
     pyIsSubclass, Val.truthy, truthy, catches, errIsA, excOf_TypeError, callValue, raiseOf, handleInvalidV, Lit.toPy, List.lookup]
 
 theorem handleInvalidV_ofInv (inv : Inv) : handleInvalidV (ofInv inv) = liftPy (handleInvalid inv) := by
@@ -153,8 +153,8 @@ theorem possible_ne_none (v : PyV) (hv : v ≠ .none) (ms : List String) (inv : 
         else if ms.contains (String.ofList (lower (tostr v))) then .ok (.str (lower (tostr v))) else handleInvalid inv := by
   cases v <;> first | exact absurd rfl hv | rfl
 
-/-- Unfold the interpreter on the body of a dumped function of conversions.py (after `simp only [link_k, run, f_ast]`;
-`run` itself is not in the set, so that the call of `_handleInvalid` is rewritten by `handleInvalid_run`). -/
+/-- Unfold the interpreter on the body of a dumped function of conversions.py (after `simp only [link_k, run, runKw, f_ast]`;
+`runKw` itself is not in the set, so that the call of `_handleInvalid` is rewritten by `handleInvalid_run`). -/
 macro "py_eval" : tactic => `(tactic| simp [
   bindArgs, execL, execS, execH, eval, evalList, toTuple, pyCompare, compareB, bnot, pyIn_py_tuple, pyIn_ofMembers, pyEq, pyIs, pyOrd, numOf, isText,
   Val.unique, pyEqV.eq_1, pyEqV.eq_2, pyEqV.eq_3, pyEqV.eq_4, pyEqV.eq_5, pyEqV.eq_6, pyEqV.eq_7, pyEqV.eq_8, pyEqV.eq_9,
